@@ -70,6 +70,7 @@ class Run:
         self.bad = False
         self.callbacks = []       # (S,F, model_established_at_call)
         self.established_gen = None
+        self.attempts_at_failure = None
         self.failed_pending = False     # a failed attempt happened, delay not fired yet, no inbound message since
         self.msg_since_failure = False
         self.seen = 0
@@ -296,6 +297,7 @@ class Run:
             # a refused attempt: must not be established, and must be retried after the delay
             self.ctx.count("oracle.M2_failed_attempts")
             self.failed_pending = True
+            self.attempts_at_failure = self.attempts_started()
             self.msg_since_failure = False
             self.check_M1()
             if not self.bad:
@@ -349,6 +351,7 @@ class Run:
         if not timers:
             return False
         state_before = self.rig.comm_state
+        attempts_before = self.attempts_started()
         self.note("T3_expires")
         th = vtime.fire(timers[0])
         if th is not None:
@@ -360,7 +363,8 @@ class Run:
             self.failed_pending = True
             self.msg_since_failure = False
             # no new S1F13 before the delay timer fires
-            if any((f.stream, f.function) == (1, 13) for _, f in out):
+            self.attempts_at_failure = self.attempts_started()
+            if any((f.stream, f.function) == (1, 13) for _, f in out) and self.retried_early(attempts_before):
                 self.violation("M2:S1F13-resent-before-the-delay-expired")
             self.check_delay_pending("unanswered")
         self.check_M1()
@@ -413,8 +417,19 @@ class Run:
         """Between a failure and the delay expiry (with no inbound message) no S1F13 may appear."""
         if self.failed_pending and not self.msg_since_failure:
             out = self.rig.data_frames(self.seen)
-            if any((f.stream, f.function) == (1, 13) for _, f in out):
+            if any((f.stream, f.function) == (1, 13) for _, f in out) and self.retried_early(self.attempts_at_failure):
                 self.violation("M2:S1F13-resent-before-the-delay-expired")
+
+    def attempts_started(self):
+        """Attempts begun so far: every entry into WAIT CRA arms the reply timer first and sends its S1F13 afterwards."""
+        return vtime.started_count("_on_wait_cra_timeout", owner=self.h.communication_state)
+
+    def retried_early(self, attempts_before):
+        """An S1F13 showed up where none is due. On a loaded machine it can be the *first* S1F13 of the attempt that just failed
+        (its sending thread was kept off the processor between arming the timer and the send); it is a retry only if a new
+        attempt was begun in the meantime or more S1F13 are on the wire than attempts were begun."""
+        sent = sum(1 for _, f in self.rig.data_frames(0) if (f.stream, f.function) == (1, 13))
+        return self.attempts_started() > (attempts_before if attempts_before is not None else 0) or sent > self.attempts_started()
 
     def finish(self):
         self.rig.shutdown(5.0)
